@@ -67,7 +67,10 @@ CLAIMS.update({
               'before its marker and the binary is the in-order concatenation of the blobs (assemble_layout). branch_lands / jal_lands / cj_lands / '
               'cb_lands: an item b/jal/c.j/c.jal/c.beqz/c.bnez ... L resolved at position p and encoded yields the bytes of a word the '
               'specification decodes to that transfer with p + offset = labels[L], for every distance the encoder accepts; far_pair_offsets: '
-              'the auipc and its jalr carry %hi/%lo of the same offset labels[L] - p and rebuild it mod 2^32. Tie and search: 1500+ seeded programs per run (all '
+              'the auipc and its jalr carry %hi/%lo of the same offset labels[L] - p and rebuild it mod 2^32. assemble_branch_lands / '
+              'assemble_jal_lands / assemble_compressed_lands compose these through the whole pipeline: in every successful assembly the 4 (2) '
+              'output bytes at the byte offset of each such item decode to that transfer with offset + byte offset = value of the target in the '
+              'returned tables. Tie and search: 1500+ seeded programs per run (all '
               'distance classes, pessimistically-far and really-far call/tail layouts, both modes) are assembled by the real code; label '
               'offsets are recomputed from the per-item chunks and every branch/jump/call/tail is decoded by the Lean spec and must reach its label.'),
         note=TB + ' Hypotheses of assemble_layout: every align argument / include_bytes size is non-negative; no caller-pre-populated label table.',
